@@ -1,5 +1,8 @@
 (* C18 — catalogue of the penalty call sites of the code base.  translate/penalties regenerates the list of every call of
-   ApplyPenalty / BanPeer / banPeer / addPenalty (file, enclosing function, callee, chain of guarding conditions) into
+   ApplyPenalty / BanPeer / banPeer / addPenalty (file and function of the ENTRY POINT that reaches it - exported function, handler
+   closure or function value; calls made inside unexported same-package helpers are attributed to the helper's callers with the
+   guard chains concatenated and parameters substituted -, callee, chain of guarding conditions incl. "not(c)" after an
+   `if c { ...; return }` other than plain error propagation) into
    Gen/Penalties.v; Properties/C18.v requires it to equal [map fst expected_sites].  Each site is classified by the kind of
    peer behaviour that reaches it; the classes are the ones named in the property text plus the internal plumbing
    (ApplyPenalty/BanPeer -> Peer.addPenalty/banPeer -> connectionGater.addPenalty, modelled in P2P/Gater.v). *)
@@ -22,49 +25,54 @@ Definition offence_code (o : offence) : nat :=
              | RateAboveLimit => 4 | Plumbing => 5 end.
 
 Definition expected_sites : list (psite * offence) :=
-  [(mkSite "pkg/consensus/sync/block_sync.go" "blockSyncer.downloadAndProcess" "s.conn.BanPeer"
-      "range downloader.downloaded | err := downloaded.block.Validate(); err != nil", InvalidSyncResponse);
-   (mkSite "pkg/consensus/sync/block_sync.go" "blockSyncer.getAndValidateNetworkLastBlock" "s.conn.BanPeer"
+  [(mkSite "pkg/consensus/sync/block_sync.go" "blockSyncer.Sync" "s.conn.BanPeer"
       "err := networkLastBlockHeader.Validate(); err != nil", InvalidSyncResponse);
-   (mkSite "pkg/consensus/sync/block_sync.go" "blockSyncer.getAndValidateNetworkLastBlock" "s.conn.BanPeer"
-      "lastBlockHeader.Version == 2 | !forkchoice.IsDifferentChain(lastBlockHeader.MaxHeightPrevoted, networkLastBlockHeader.MaxHeightPrevoted, lastBlockHeader.Height, networkLastBlockHeader.Height)",
-      InvalidSyncResponse);
+   (mkSite "pkg/consensus/sync/block_sync.go" "blockSyncer.Sync" "s.conn.BanPeer"
+      "lastBlockHeader.Version == 2 | !forkchoice.IsDifferentChain(lastBlockHeader.MaxHeightPrevoted, networkLastBlockHeader.MaxHeightPrevoted, lastBlockHeader.Height, networkLastBlockHeader.Height)", InvalidSyncResponse);
+   (mkSite "pkg/consensus/sync/block_sync.go" "blockSyncer.Sync" "s.conn.BanPeer"
+      "range downloader.downloaded | not(downloaded.err != nil) | err := downloaded.block.Validate(); err != nil", InvalidSyncResponse);
+   (mkSite "pkg/consensus/sync/fast_sync.go" "fastSyncer.Sync" "s.conn.BanPeer"
+      "err != nil | errors.Is(err, errCommonBlockNotFound)", InvalidSyncResponse);
    (mkSite "pkg/consensus/sync/fast_sync.go" "fastSyncer.Sync" "s.conn.BanPeer"
       "commonBlockHeader.Height < ctx.FinalizedBlockHeader.Height", InvalidSyncResponse);
    (mkSite "pkg/consensus/sync/fast_sync.go" "fastSyncer.Sync" "s.conn.BanPeer"
-      "range downloadedBlocks | err := s.processor(ctx.Ctx, block, publish, false); err != nil", InvalidSyncResponse);
-   (mkSite "pkg/consensus/sync/fast_sync.go" "fastSyncer.downloadAndValidate" "s.conn.BanPeer"
-      "range downloader.downloaded | err := downloaded.block.Validate(); err != nil", InvalidSyncResponse);
-   (mkSite "pkg/consensus/sync/fast_sync.go" "fastSyncer.getCommonBlock" "s.conn.BanPeer"
-      "err != nil | errors.Is(err, errCommonBlockNotFound)", InvalidSyncResponse);
+      "not(commonBlockHeader.Height < ctx.FinalizedBlockHeader.Height) | not(lastBlockHeader.Height-commonBlockHeader.Height > twoRounds || ctx.Block.Header.Height-commonBlockHeader.Height > twoRounds) | range downloader.downloaded | not(downloaded.err != nil) | err := downloaded.block.Validate(); err != nil", InvalidSyncResponse);
+   (mkSite "pkg/consensus/sync/fast_sync.go" "fastSyncer.Sync" "s.conn.BanPeer"
+      "not(commonBlockHeader.Height < ctx.FinalizedBlockHeader.Height) | not(lastBlockHeader.Height-commonBlockHeader.Height > twoRounds || ctx.Block.Header.Height-commonBlockHeader.Height > twoRounds) | range downloadedBlocks | err := s.processor(ctx.Ctx, block, publish, false); err != nil", InvalidSyncResponse);
    (mkSite "pkg/consensus/sync/sync.go" "Syncer.HandleRPCEndpointGetHighestCommonBlock/func" "s.conn.BanPeer"
       "r.Data == nil", InvalidSyncRequest);
    (mkSite "pkg/consensus/sync/sync.go" "Syncer.HandleRPCEndpointGetHighestCommonBlock/func" "s.conn.BanPeer"
-      "err := req.Decode(r.Data); err != nil", InvalidSyncRequest);
+      "not(r.Data == nil) | err := req.Decode(r.Data); err != nil", InvalidSyncRequest);
    (mkSite "pkg/consensus/sync/sync.go" "Syncer.HandleRPCEndpointGetHighestCommonBlock/func" "s.conn.BanPeer"
-      "len(req.IDs) == 0", InvalidSyncRequest);
+      "not(r.Data == nil) | len(req.IDs) == 0", InvalidSyncRequest);
    (mkSite "pkg/consensus/sync/sync.go" "Syncer.HandleRPCEndpointGetHighestCommonBlock/func" "s.conn.BanPeer"
-      "range req.IDs | len(id) != 32", InvalidSyncRequest);
+      "not(r.Data == nil) | not(len(req.IDs) == 0) | range req.IDs | len(id) != 32", InvalidSyncRequest);
    (mkSite "pkg/consensus/sync/sync.go" "Syncer.HandleRPCEndpointGetBlocksFromID/func" "s.conn.BanPeer"
       "r.Data == nil", InvalidSyncRequest);
    (mkSite "pkg/consensus/sync/sync.go" "Syncer.HandleRPCEndpointGetBlocksFromID/func" "s.conn.BanPeer"
-      "err := req.Decode(r.Data); err != nil", InvalidSyncRequest);
+      "not(r.Data == nil) | err := req.Decode(r.Data); err != nil", InvalidSyncRequest);
    (mkSite "pkg/consensus/sync/sync.go" "Syncer.HandleRPCEndpointGetBlocksFromID/func" "s.conn.BanPeer"
-      "len(req.ID) != blockchain.IDLength", InvalidSyncRequest);
-   (mkSite "pkg/p2p/message_protocol.go" "MessageProtocol.onRequest" "mp.peer.banPeer"
+      "not(r.Data == nil) | len(req.ID) != blockchain.IDLength", InvalidSyncRequest);
+   (mkSite "pkg/p2p/message_protocol.go" "MessageProtocol.start/func" "mp.peer.banPeer"
       "err := newMsg.Decode(buf); err != nil", MalformedEnvelope);
-   (mkSite "pkg/p2p/message_protocol.go" "MessageProtocol.onRequest" "mp.peer.banPeer" "!exist", UnknownProc);
+   (mkSite "pkg/p2p/message_protocol.go" "MessageProtocol.start/func" "mp.peer.banPeer"
+      "!exist", UnknownProc);
+   (mkSite "pkg/p2p/message_protocol.go" "MessageProtocol.start/func" "mp.rateLimit.peer.addPenalty"
+      "not(!exist) | not(mp.rateLimit.peer == nil) | msgCounter.counters[remoteID] > msgCounter.limit", RateAboveLimit);
    (mkSite "pkg/p2p/message_protocol.go" "MessageProtocol.onResponse" "mp.peer.banPeer"
       "err := newMsg.Decode(buf); err != nil", MalformedEnvelope);
-   (mkSite "pkg/p2p/message_protocol.go" "MessageProtocol.onResponse" "mp.peer.banPeer" "!exist", UnknownProc);
+   (mkSite "pkg/p2p/message_protocol.go" "MessageProtocol.onResponse" "mp.peer.banPeer"
+      "!exist", UnknownProc);
+   (mkSite "pkg/p2p/message_protocol.go" "MessageProtocol.onResponse" "mp.rateLimit.peer.addPenalty"
+      "not(!exist) | not(mp.rateLimit.peer == nil) | msgCounter.counters[remoteID] > msgCounter.limit", RateAboveLimit);
    (mkSite "pkg/p2p/p2p.go" "Connection.ApplyPenalty" "conn.addPenalty"
       "range conn.Peer.host.Network().ConnsToPeer(pid)", Plumbing);
    (mkSite "pkg/p2p/p2p.go" "Connection.BanPeer" "conn.Peer.banPeer"
       "range conn.Peer.host.Network().ConnsToPeer(pid)", Plumbing);
-   (mkSite "pkg/p2p/peer.go" "Peer.addPenalty" "p.connGater.addPenalty" "", Plumbing);
-   (mkSite "pkg/p2p/peer.go" "Peer.banPeer" "p.connGater.addPenalty" "", Plumbing);
-   (mkSite "pkg/p2p/ratelimit.go" "rateLimit.checkLimit" "rl.peer.addPenalty"
-      "msgCounter.counters[peerID] > msgCounter.limit", RateAboveLimit)].
+   (mkSite "pkg/p2p/peer.go" "Peer.addPenalty" "p.connGater.addPenalty"
+      "", Plumbing);
+   (mkSite "pkg/p2p/peer.go" "Peer.banPeer" "p.connGater.addPenalty"
+      "", Plumbing)].
 
 (* functions / interface methods that declare one of the four names *)
 Definition expected_decls : list string :=
